@@ -225,7 +225,17 @@ func (s *LogStore) triggerVerify(r VerificationReport) {
 
 // DeleteRange deletes a range of log entries. The range is inclusive.
 func (s *LogStore) DeleteRange(min uint64, max uint64) error {
-	return s.s.DeleteRange(min, max)
+	err := s.s.DeleteRange(min, max)
+	if err == nil {
+		// Entries we already summed may be gone now (e.g. a conflicting suffix was
+		// truncated and will be re-appended). Restart the running checksum so the
+		// next checkpoint only covers entries that are really in the log; a
+		// follower whose range no longer matches the leader just skips the
+		// written-sum comparison for that one checkpoint.
+		atomic.StoreUint64(&s.checksum, 0)
+		atomic.StoreUint64(&s.sumStartIdx, 0)
+	}
+	return err
 }
 
 // Close cleans up the background verification routine and calls Close on the
